@@ -123,9 +123,14 @@ def part_lh_angle(slot):
             bs = (pat + bi) & 0xff
             pk.data = _lh_packet(bs, b32, px, -b32, py)
             del got_pk[:]
-            cf.cbs[0][1](pk)
             cls = _fp16_class(pat)
             p.case(key=('lh', slot, bi, pat), outcome=cls)
+            try:
+                cf.cbs[0][1](pk)
+            except Exception as e:  # noqa
+                p.violation('lh_angle:raises:' + cls, 'angle stream slot %d pattern 0x%04x base %r: the packet handler '
+                            'raised %r' % (slot, pat, base, e), {'part': 'lh', 'slot': slot, 'pattern': pat, 'base': base})
+                continue
             if len(got_pk) != 1 or got_pk[0].type != 10:
                 p.violation('lh_angle:no_single_packet', 'angle stream packet produced %d callbacks'
                             % len(got_pk), {'part': 'lh', 'slot': slot, 'pattern': pat, 'base': base})
@@ -166,8 +171,10 @@ def part_quat(args):
     for idx, q in enumerate(_quat_lattice(levels)):
         if idx % nchunks != chunk:
             continue
+        n0 = math.sqrt(sum(c * c for c in q))
         for sc in scales:
-            qin = [c * sc for c in q]
+            # a scale given as ('norm', k) makes the input's norm exactly k: almost-but-not-quite unit quaternions
+            qin = [c * sc for c in q] if not isinstance(sc, tuple) else [c / n0 * sc[1] for c in q]
             n = math.sqrt(sum(c * c for c in qin))
             qn = [c / n for c in qin]
             mags = sorted(abs(c) for c in qn)
@@ -482,7 +489,8 @@ def run(ck):
     else:
         levels = (-1.0, -0.75, -0.5, -0.25, 0.0, 0.25, 0.5, 0.75, 1.0)
         slots = range(6)
-    scales = (1.0, 0.1, 10.0)
+    scales = (1.0, 0.1, 10.0, ('norm', 1.0), ('norm', 0.991), ('norm', 1.009), ('norm', 0.9999), ('norm', 1.0001),
+              ('norm', 1e-6), ('norm', 1e6))
     jobs = [('fp16', None)]
     jobs += [('lh_angle', s) for s in slots]
     jobs += [('quat', (levels, scales, c, 4)) for c in range(4)]
